@@ -1,13 +1,13 @@
 SPECIFICATION Spec
 CONSTANTS
-  Regs <- MCRegs
+  Regs <- MCRegs2
   TU = 1
   TA = 3
   MaxT = 4
   TickSteps = {}
-  LifeEvents = FALSE
+  LifeEvents = TRUE
   KeepAlive = 2
-  ClearWhen = "always"
+  ClearWhen = "if-tracking"
   DupMode = "ignore"
   ClearFirst = TRUE
 VIEW view
